@@ -35,6 +35,8 @@ pub enum Step {
     Cancel { k: u8 },
     Release { gate: u8 },
     DropWrapper,
+    /// the wrapper is owned by a task that panics: dropped while that thread unwinds
+    PanicDrop,
     CheckPoison,
 }
 
@@ -390,7 +392,7 @@ async fn interp(world: Arc<World>, steps: Vec<Step>) -> Outcome {
                 world.gates[g].1.notify_all();
                 pause().await;
             }
-            Step::DropWrapper => {
+            Step::DropWrapper | Step::PanicDrop => {
                 if wrapper.is_none() {
                     continue;
                 }
@@ -412,8 +414,19 @@ async fn interp(world: Arc<World>, steps: Vec<Step>) -> Outcome {
                     out.nontrivial = true;
                 }
                 let w = wrapper.take().unwrap();
-                lock(&world.w).trace.push(format!("wrapper dropped on {:?}", std::thread::current().id()));
-                drop(w);
+                if matches!(step, Step::PanicDrop) {
+                    out.labels.push("drop:by-unwinding".into());
+                    let world2 = world.clone();
+                    let h = tokio::spawn(tracked(&world, async move {
+                        let _owned = w;
+                        lock(&world2.w).trace.push(format!("wrapper owned by a task that panics on {:?}", std::thread::current().id()));
+                        std::panic::panic_any(Injected);
+                    }));
+                    let _ = h.await;
+                } else {
+                    lock(&world.w).trace.push(format!("wrapper dropped on {:?}", std::thread::current().id()));
+                    drop(w);
+                }
                 pause().await;
             }
             Step::CheckPoison => {
@@ -526,6 +539,7 @@ pub fn case(thorough: bool) -> BoxedStrategy<Case> {
         4 => any::<u8>().prop_map(|k| Step::Cancel { k }),
         4 => (0u8..3).prop_map(|gate| Step::Release { gate }),
         2 => Just(Step::DropWrapper),
+        1 => Just(Step::PanicDrop),
         1 => Just(Step::CheckPoison),
     ];
     (any::<bool>(), prop_oneof![Just(1u8), Just(2u8), Just(4u8)], prop::collection::vec(step, 1..=maxlen))
